@@ -799,15 +799,11 @@ class Emitter:
             then = n["inner"][-1]
             if self.is_log_stmt(then):
                 return True
-            # the `if (enabled)` of a log macro: only when the `if` token itself comes from a macro expansion;
-            # a user-written `if (c) { XBT_DEBUG(..); real_statement; }` is NOT a log statement
-            if "spellingLoc" not in n.get("range", {}).get("begin", {}):
-                return False
-            return contains(then, lambda x: x.get("kind") == "CallExpr" and
-                            skip(x["inner"][0]).get("referencedDecl", {}).get("name") in LOG_CALLS) and \
-                not contains(then, lambda x: x.get("kind") == "CallExpr" and
-                             skip(x["inner"][0]).get("referencedDecl", {}).get("name") in ABORT_CALLS) and \
-                not contains(then, lambda x: x.get("kind") in ("CXXThrowExpr", "ReturnStmt"))
+            # the macro's own block: { s_xbt_log_event_t _log_ev; _log_ev.f = ...; _xbt_log_event_log(&_log_ev, ...); }
+            # (an `if` of the program that merely CONTAINS a log statement is NOT a log statement)
+            return then.get("kind") == "CompoundStmt" and len(then.get("inner", [])) >= 1 and \
+                all(self.is_log_event_part(s) for s in then["inner"]) and \
+                any(s.get("kind") == "CallExpr" for s in then["inner"])
         if k == "CompoundStmt":
             ss = n.get("inner", [])
             return len(ss) >= 1 and all(self.is_log_stmt(s) for s in ss)
@@ -815,6 +811,23 @@ class Emitter:
             return skip(n["inner"][0]).get("referencedDecl", {}).get("name") in (LOG_CALLS | DROP_CALLS)
         if k in ("ExprWithCleanups",):
             return self.is_log_stmt(n["inner"][0])
+        return False
+
+    @staticmethod
+    def is_log_event_part(s):
+        """one statement of the XBT_LOG macro's block: declaration of _log_ev, a store into it, or the logging call"""
+        while s.get("kind") in TRANSPARENT:
+            s = s["inner"][0]
+        k = s.get("kind")
+        if k == "DeclStmt":
+            ds = s.get("inner", [])
+            return len(ds) == 1 and ds[0].get("kind") == "VarDecl" and ds[0].get("name") == "_log_ev"
+        if k == "BinaryOperator" and s.get("opcode") == "=":
+            lhs = skip(s["inner"][0])
+            return lhs.get("kind") == "MemberExpr" and \
+                skip(lhs["inner"][0]).get("referencedDecl", {}).get("name") == "_log_ev"
+        if k == "CallExpr":
+            return skip(s["inner"][0]).get("referencedDecl", {}).get("name") in LOG_CALLS
         return False
 
     def s_CompoundStmt(self, n, ind):
